@@ -38,7 +38,15 @@ def run_batch(chk, scens, name, race=False):
             raise ProbeCrashed(rc, out, len(impl), None)
     else:
         impl = chk.run_impl("cache", "TestVerifProbeCache", scens, name=name, timeout=PROBE_TIMEOUT_S)
-    mlines = ["M %d %d %s %s" % (SLACK_US, GUARD_US, s, o) for s, o in zip(scens, impl)]
+    mlines = []
+    for s, o in zip(scens, impl):
+        sched = ""
+        if G.parse_kind(s) == "errload":
+            ob = G.parse_obs(o)
+            sc = G.errload_schedule(ob) if ob and "crash" not in ob else None
+            if sc:
+                sched = "SCHED %d %s " % (len(sc), " ".join("%d %d" % x for x in sc))
+        mlines.append("M %d %d %s%s %s" % (SLACK_US, GUARD_US, sched, s, o))
     model = chk.run_model("cache", mlines, name=name)
     out = []
     for o, m in zip(impl, model):
@@ -129,7 +137,12 @@ def run(chk, failed):
         tags.append(["corpus", "corpus"])
     total = nbatch * per
     for i in range(total):
-        ln, tg = G.gen_scenario(chk.rng, "s%d" % i)
+        if i % per < 2:
+            ln, tg = G.gen_errload(chk.rng, "%d" % i)       # two scripted two-requester scenarios per batch
+        elif i % per == 2 and (i // per) % 8 == 0:
+            ln, tg = G.gen_default(chk.rng, "%d" % i, full=chk.thorough)
+        else:
+            ln, tg = G.gen_scenario(chk.rng, "s%d" % i)
         scens.append(ln)
         tags.append(tg)
 
@@ -162,6 +175,13 @@ def run(chk, failed):
                 continue
             stats(chk, scen, tags[idx], obs)
             body, flags = split_replay(replay)
+            want = {"0": 0, "1": 1, "-1": 10}.get(scen.split()[2])
+            if G.configured_lifetime(obs) != want:
+                ofail.append((idx, scen, o, "the module reads a cache lifetime of %s s from a configuration that says %s"
+                              % (G.configured_lifetime(obs), "nothing (default 10)" if want == 10 else want), replay))
+                continue
+            if tags[idx][0] == "errload":
+                chk.count("errload:replayed" if body is not None else "errload:shape-missed")
             # the oracle on the implementation's own observations
             cur = (o, oracle, replay, proj)
             if oracle != "ok":
